@@ -25,7 +25,7 @@ private:
 };
 
 void AssertNoCircularReferences(const Value& value);
-Value Serialize(const Value& value, int attributeTypes = FAState);
+Value Serialize(const Value& value, int attributeTypes = FAState, bool hideNoUserView = false);
 Value Deserialize(const Value& value, bool safe_mode = false, int attributeTypes = FAState);
 Value Deserialize(const Object::Ptr& object, const Value& value, bool safe_mode = false, int attributeTypes = FAState);
 
